@@ -182,7 +182,11 @@ def run_session(case, data_dir=None, data_source=None, keep=False):
             kw['gross_leverage'] = case['param']
         fee = ZeroFeeModel() if case['fee'][0] == 'Z' else PercentFeeModel(commission_pct=case['fee'][1], tax_pct=case['fee'][2])
         try:
-            bt = BacktestTradingSession(ts(case['start']), ts(case['end']), uni, alpha, signals=signals,
+            t_start = ts(case['start'])
+            if case.get('start_us'):
+                import pandas as pd
+                t_start = t_start + pd.Timedelta(microseconds=case['start_us'])
+            bt = BacktestTradingSession(t_start, ts(case['end']), uni, alpha, signals=signals,
                                         initial_cash=case['cash'], rebalance=case['rebalance'], long_only=case['long_only'],
                                         fee_model=fee, burn_in_dt=None if case.get('burn') is None else ts(case['burn']),
                                         data_handler=dh, **kw)
